@@ -614,7 +614,11 @@ class C17(Property):
                     if ref is None:
                         continue
                     got = float(x[idx])
-                    if not close(got, ref[i], 1e-11, 1e-11 * scale):
+                    # same tolerance as the correspondence (the array and the scalar code paths of numpy differ in the last bit,
+                    # e.g. `x ** 2`; the quadratic-root forms amplify that); the scale includes substituted values (ints 1, 2, 3)
+                    sc = max([scale] + [float(np.max(np.abs(np.asarray(v, dtype=float)))) for k_, v in kw.items()
+                                        if k_ in self.CONC and not isinstance(v, float)])
+                    if not close(got, ref[i], 1e-9, 1e-9 * sc):
                         return ('%s [%s]: element %r of result %d is %r, the call with plain floats gives %r'
                                 % (show(kw), what, idx, i, got, ref[i]))
             return None
